@@ -6,6 +6,7 @@ Token per model action:  Read(t) -> (t, "read")      granted before the thread e
                          Acquire(t) -> (t, "acquire") parked at auth.before_lock
                          ReRead(t) -> (t, "reread")   parked at auth.locked (lock held, before the in-lock re-read)
                          Fetch(t) -> (t, "fetch")     parked inside the provider double's get()
+                         FetchFail(t) -> (t, "fetchfail")  same parking place; the double raises ProviderFault instead of returning a token
                          Write(t) -> (t, "write")     parked at auth.fetched (before the cache entry is written)
                          Tick -> ("env", "tick")      performed by whichever thread finds it at the head of the schedule
 """
@@ -14,6 +15,10 @@ from __future__ import annotations
 import threading
 import time
 from typing import Any
+
+
+class ProviderFault(Exception):
+    """What the provider double raises for the model's FetchFail action."""
 
 
 class AuthScheduler:
@@ -28,14 +33,16 @@ class AuthScheduler:
         self.role: dict[int, int] = {}
         self.fetches: list[dict] = []
         self.returned: list[dict] = []
+        self.nfails = 0
         self.log_lock = threading.Lock()
 
     def bind(self, t: int) -> None:
         self.role[threading.get_ident()] = t
 
-    def gate(self, token: str) -> None:
+    def gate(self, token: str, alt: str | None = None) -> str | None:
+        """Waits until the schedule's next step is (this thread, token) - or (this thread, alt) - and returns the one that matched."""
         if self.free:
-            return
+            return None
         t = self.role.get(threading.get_ident())
         deadline = time.monotonic() + self.patience
         with self.cv:
@@ -47,18 +54,20 @@ class AuthScheduler:
                 if self.idx >= len(self.steps):
                     self.free = True
                     self.cv.notify_all()
-                    return
-                if self.steps[self.idx] == (t, token):
+                    return None
+                if self.steps[self.idx] == (t, token) or (alt is not None and self.steps[self.idx] == (t, alt)):
+                    matched = self.steps[self.idx][1]
                     self.idx += 1
                     self.cv.notify_all()
-                    return
+                    return matched
                 remaining = deadline - time.monotonic()
                 if remaining <= 0:
                     self.diverged = "thread %s waits for %r, schedule expects %r at step %d" % (t, token, self.steps[self.idx], self.idx)
                     self.free = True
                     self.cv.notify_all()
-                    return
+                    return None
                 self.cv.wait(min(remaining, 0.05))
+        return None
 
     # _verif controller API
     def point(self, name: str, data: dict) -> None:
@@ -78,7 +87,10 @@ class ProviderDouble:
         self.sched = sched
 
     def get(self, case: Any, context: Any) -> Any:
-        self.sched.gate("fetch")
+        if self.sched.gate("fetch", "fetchfail") == "fetchfail":
+            with self.sched.log_lock:
+                self.sched.nfails += 1
+            raise ProviderFault("token endpoint unavailable")
         with self.sched.log_lock:
             self.sched.fetches.append({"k": int(case), "at": int(self.sched.now)})
             return len(self.sched.fetches)
@@ -88,11 +100,12 @@ class ProviderDouble:
 
 
 def steps_of(beh: list[tuple[str, int, dict]]) -> tuple[list[tuple], dict[int, list[int]], list[dict]]:
-    """Model behaviour -> (tokens, per-thread list of keys to call in order, the model's fetch log at the end)."""
+    """Model behaviour -> (tokens, per-thread list of keys to call in order, the model's fetch log at the end).
+    The number of failed fetches of the behaviour is `sum(1 for s in tokens if s[1] == "fetchfail")`."""
     steps: list[tuple] = []
     calls: dict[int, list[int]] = {}
     final_fetches: list[dict] = []
-    tok = {"Read": "read", "Acquire": "acquire", "ReRead": "reread", "Fetch": "fetch", "Write": "write"}
+    tok = {"Read": "read", "Acquire": "acquire", "ReRead": "reread", "Fetch": "fetch", "FetchFail": "fetchfail", "Write": "write"}
     for action, t, st in beh:
         if action == "Call":
             calls.setdefault(t, []).append(st["key"][t - 1])
@@ -120,7 +133,10 @@ def run_forced(steps: list[tuple], calls: dict[int, list[int]], R: int, keyed: b
         sched.bind(t)
         for k in calls.get(t, []):
             sched.gate("read")
-            data = provider.get(k, None)
+            try:
+                data = provider.get(k, None)
+            except ProviderFault:
+                continue
             with sched.log_lock:
                 sched.returned.append({"t": t, "k": int(k), "data": int(data), "at": int(sched.now)})
 
@@ -134,11 +150,11 @@ def run_forced(steps: list[tuple], calls: dict[int, list[int]], R: int, keyed: b
         hung = any(th.is_alive() for th in threads)
     finally:
         _verif.uninstall()
-    return {"fetches": sched.fetches, "returned": sched.returned, "R": R, "diverged": sched.diverged,
+    return {"fetches": sched.fetches, "returned": sched.returned, "R": R, "diverged": sched.diverged, "nfails": sched.nfails,
             "hung": hung, "followed": sched.idx, "nsteps": len(steps)}
 
 
-def run_free(nthreads: int, ncalls: int, R_ms: int, keys: int, keyed: bool) -> dict:
+def run_free(nthreads: int, ncalls: int, R_ms: int, keys: int, keyed: bool, fail_every: int = 0) -> dict:
     """Free-running real threads and the real monotonic clock (integer milliseconds)."""
     from schemathesis.auths import CachingAuthProvider, KeyedCachingAuthProvider
 
@@ -150,9 +166,16 @@ def run_free(nthreads: int, ncalls: int, R_ms: int, keys: int, keyed: bool) -> d
     def now_ms() -> float:
         return (time.monotonic() - t0) * 1000.0
 
+    attempts = [0]
+    nfails = [0]
+
     class Double:
         def get(self, case, context):
             with lock:
+                attempts[0] += 1
+                if fail_every and attempts[0] % fail_every == 1:
+                    nfails[0] += 1
+                    raise ProviderFault("token endpoint unavailable")
                 fetches.append({"k": int(case), "at": int(now_ms())})
                 n = len(fetches)
             time.sleep(0.0005)
@@ -170,7 +193,10 @@ def run_free(nthreads: int, ncalls: int, R_ms: int, keys: int, keyed: bool) -> d
     def worker(t: int) -> None:
         for i in range(ncalls):
             k = 1 + (t + i) % keys
-            data = provider.get(k, None)
+            try:
+                data = provider.get(k, None)
+            except ProviderFault:
+                continue
             with lock:
                 returned.append({"t": t, "k": k, "data": int(data), "at": int(now_ms())})
             if i % 7 == 0:
@@ -181,6 +207,8 @@ def run_free(nthreads: int, ncalls: int, R_ms: int, keys: int, keyed: bool) -> d
         th.start()
     for th in threads:
         th.join(30)
+    hung = any(th.is_alive() for th in threads)
     # the fetch timestamp is taken inside the provider, i.e. AFTER the expiry comparison that allowed it, and int() truncation
     # can only lose < 1 ms on each side: the judge gets R - 1 to stay sound
-    return {"fetches": fetches, "returned": returned[:50], "R": R_ms - 1, "diverged": "", "hung": False, "followed": 0, "nsteps": 0}
+    return {"fetches": fetches, "returned": returned[:50], "R": R_ms - 1, "diverged": "", "hung": hung, "nfails": nfails[0], "followed": 0,
+            "nsteps": 0}
